@@ -35,13 +35,14 @@ KeyTypes == {"rsa", "ecdsa", "dsa", "ed25519", "rsapss", "p384", "p521", "ed448"
 \* which (site, class, key type, version) combinations exist
 Meaningful(c) ==
   /\ (c.site \in SigSites => c.cls \in {"none", "bitflip", "empty", "trunc", "extend", "otherkey", "otherdata", "declother", "degenerate",
-                                          "misplaced"})
+                                          "misplaced", "replayed"})
   /\ (c.cls = "misplaced" => c.site = "dcsig")
   \* degenerate (r, s) pairs exist for the (EC)DSA family only
   /\ (c.site \in SigSites /\ c.cls = "degenerate" => c.kt \in {"dsa", "ecdsa", "p384", "p521", "bp256"})
   /\ (c.site \in SigSites => c.kt # "-")
   /\ (c.site \notin SigSites => c.kt = "-" /\ c.cls \in {"none", "wrongsecret", "absent", "stale", "degenerate", "replayed"})
-  /\ (c.cls = "replayed" => c.site = "phafin")
+  \* (at a signature site: the genuine signature the same key made in an EARLIER handshake of the same two parties)
+  /\ (c.cls = "replayed" => c.site \in {"phafin", "ske12", "cv12", "scv13", "ccv13"})
   /\ (c.cls = "degenerate" => c.site = "srp" \/ c.site \in SigSites)
   \* (at site "srp": the ClientHello names an SRP user while a certificate suite is negotiated - no SRP proof is made at
   \*  all; the handshake may complete, the user name must not be attributed)
